@@ -552,6 +552,17 @@ package workflow
 // must also hold for an aggregator whose only child is such an iterator
 //@   ensures b ==> len(i.Roles) > 0
 
+// C08 (each started call is collected exactly once): every time a call role is asked for the hooks of a trigger it hands out
+// a NEW call object - an execution of the hook that is still pending (started, not yet awaited) keeps its own await
+// channel and cancel function when the hook is triggered again
+//@ func (t *callRole) GetHooksMapForTrigger(trigger string) (hooks callable.HooksMap)
+//@   property C08
+//@   requires t != nil
+//@   ghostvar nMade int = 0
+//@   ghostvar made *callable.Call = nil
+//@   on aftercall callable.NewCall : made = result ; nMade = nMade + 1
+//@   on mapupdate * : assert nMade == 1 && len(value) == 1 && value[0] == iface(made) && key == triggerWeight
+
 // C15: a template error while resolving an iterator's range expression makes the load fail (the JSON decoding of the
 // resolved text is outside the contracts)
 //@ func (f *iteratorRangeExpr) GetRange(varStack map[string]string) (ran []string, err error)
